@@ -11,7 +11,13 @@ import (
 // visibleCallee reports whether a statically known callee is a synchronisation operation.
 func visibleCallee(name string) bool {
 	if strings.HasPrefix(name, "sync/atomic.") {
-		return true
+		short := name[len("sync/atomic."):]
+		for _, p := range []string{"Load", "Store", "Add", "Swap", "CompareAndSwap", "And", "Or"} {
+			if strings.HasPrefix(short, p) {
+				return true
+			}
+		}
+		return false
 	}
 	switch name {
 	case "(*sync.Mutex).Lock", "(*sync.Mutex).Unlock", "(*sync.RWMutex).Lock", "(*sync.RWMutex).Unlock", "(*sync.RWMutex).RLock", "(*sync.RWMutex).RUnlock":
